@@ -1,12 +1,15 @@
 #!/bin/bash
-# applies every kept seeded patch to /repo in turn and reports which properties fire (quick tier), then restores /repo
+# applies every kept seeded patch to a scratch copy of /repo's sources and reports whether its property fires (quick
+# tier); /repo is not touched
 cd /verif
-cp known_findings.jsonl /tmp/mut/scratch-verif/ 2>/dev/null || { mkdir -p /tmp/mut/scratch-verif; cp known_findings.jsonl /tmp/mut/scratch-verif/; }
 for d in seeded/*/; do
   n=$(basename $d)
   prop=$(python3 -c "import json;print(json.load(open('$d/meta.json'))['property'])")
-  git -C /repo apply /verif/$d/patch.diff 2>/dev/null || { echo "$n: PATCH-STALE"; continue; }
-  out=$(./bin/xcheck -prop $prop -verif /tmp/mut/scratch-verif 2>&1)
+  scratch=$(mktemp -d /tmp/seed-run.XXXXXX)
+  rsync -a --exclude .git /repo/ $scratch/src/
+  mkdir -p $scratch/verif; cp known_findings.jsonl $scratch/verif/
+  if ! (cd $scratch/src && patch -p1 -s --no-backup-if-mismatch -i /verif/$d/patch.diff) 2>/dev/null; then echo "$n: PATCH-STALE"; rm -rf $scratch; continue; fi
+  out=$(./bin/xcheck -prop $prop -repo $scratch/src -verif $scratch/verif 2>&1)
   if echo "$out" | grep -q "^VIOLATION"; then echo "$n: FIRES $(echo "$out" | grep -E '^(VIOLATED|UNDECIDED)' | head -2 | cut -c1-120 | tr '\n' ' ')"; else echo "$n: silent ($(echo "$out" | grep -c CHECKER) checker errors)"; fi
-  git -C /repo checkout -- .; git -C /repo clean -fdq -- '*.go'
+  rm -rf $scratch
 done
